@@ -1079,8 +1079,12 @@ def run(tier, replay=None):
                 'trivial = none: every history executes at least one API call on a real tree')
     d = vlib.scratch('c10')
     quick = tier == 'quick'
+    # budgets of the termination guard (inherited by the forked workers); measured on the unchanged tree: one history <= 0.35 s
+    # (quick) / 1.4 s (thorough), the histories of one task <= 12 s / 39 s - see termination_guard in the evidence
+    if not os.environ.get('C10_HIST_CPU'):
+        W.HIST_CPU = 5.0 if quick else 15.0
     if not os.environ.get('C10_TASK_CPU'):
-        W.TASK_CPU = 90.0 if quick else 900.0     # (inherited by the forked workers) ordinary tasks: see termination_guard in the evidence
+        W.TASK_CPU = 90.0 if quick else 600.0
     try:
         tasks = []
         # spec -> code: exhaustive histories of mutating calls on small real trees (+ read-only observations on every forest reached)
